@@ -17,46 +17,54 @@ SPECS = {
         assumptions=['`**/` means zero or more whole directories (the reading consistent with the statement and the pinned test path_glob_selects_md_under_src)'],
     ),
     'C05': dict(
-        fncorr=['replace', 'rules', 'template'], runners=['stream'],
+        e2e_modes=['filter'],
+        fncorr=['replace', 'rules', 'template'], runners=['stream', 'e2e_filter'],
         trusted_base=['modelled, not verified: message.rs replace_all_bytes, MessageReplacer::from_file/apply, blob_regex/msg_regex rule parsing and expand_bytes_template (Frrs/Replace.lean)',
                       'regex matching and replace_all of the regex crate are a parameter: only rule parsing (pattern text handed to the compiler, glob translation, replacement, $-flag) and template expansion are modelled'],
         assumptions=['rule files are read as bytes split on LF', 'SHA-1 is a function of the object bytes (unchanged bytes => unchanged id)'],
     ),
     'C04': dict(
-        fncorr=['timestamp', 'authors', 'mailmap', 'replace', 'rules'], runners=['stream'],
+        e2e_modes=['filter'],
+        fncorr=['timestamp', 'authors', 'mailmap', 'replace', 'rules'], runners=['stream', 'e2e_filter'],
         trusted_base=['modelled, not verified: rewrite_timestamp_line, AuthorRewriter, rewrite_author_line, rewrite_email_line, MailmapRewriter (Frrs/Identity.lean, Frrs/Utf8.lean); message rules share Frrs/Replace.lean',
                       'aho-corasick enters through its documented standard (earliest-end) match semantics (acReplace), validated by the correspondence run',
                       'the mailmap line regex of MailmapRewriter::from_reader is modelled by hand (parseMailmapLine) and validated by the correspondence run'],
         assumptions=['std::str::from_utf8 and Unicode White_Space as modelled in Frrs/Utf8.lean'],
     ),
     'C02': dict(
-        fncorr=['commit'], runners=['stream'],
+        e2e_modes=['filter'],
+        fncorr=['commit'], runners=['stream', 'e2e_filter'],
         trusted_base=['modelled, not verified: should_keep_commit, finalize_parent_lines, resolve_canonical_mark, mark parsers, build_alias, rename_commit_header_ref (Frrs/Commit.lean)'],
         assumptions=['fast-import resolves an alias mark to its target and a `from`/`merge` list to the parent list in that order (importer contract, Frrs/Import.lean)'],
     ),
     'C01': dict(
-        fncorr=['lines'], runners=['stream'],
+        e2e_modes=['filter'],
+        fncorr=['lines'], runners=['stream', 'e2e_filter'],
         trusted_base=['modelled, not verified: the main loop of stream.rs with commit.rs/tag.rs and the tag-reset flush of finalize.rs (Frrs/Filter.lean, rule by rule after DESIGN.md Appendix B); tied to the code by running the real tool under --dry-run --fe_stream_override on generated streams and comparing status, fast-export.filtered, commit-map, ref-map byte for byte', 'git fast-import is a stated contract (Frrs/Import.lean: marks, aliases, branch table, implicit parent, tree algebra incl. file/directory replacement, annotated tags), validated against git 2.39.5 by differential runs, not proved',
                       'the command-level simulation Frrs.Sim (tree_simulation) is about an abstract filter sharing the blueprint of Filter.runBytes; that link is checked by the oracle on every generated case, not proved'],
         assumptions=['RenameOk: the rename is injective and conflict-free on the kept paths of the whole history (renameOk guard)', 'paths free of control bytes', 'no file<->directory swap inside one commit (class F12)'],
     ),
     'C03': dict(
-        fncorr=['commit'], runners=['stream'],
+        e2e_modes=['filter'],
+        fncorr=['commit'], runners=['stream', 'e2e_filter'],
         trusted_base=['modelled, not verified: the main loop of stream.rs with commit.rs/tag.rs and the tag-reset flush of finalize.rs (Frrs/Filter.lean, rule by rule after DESIGN.md Appendix B); tied to the code by running the real tool under --dry-run --fe_stream_override on generated streams and comparing status, fast-export.filtered, commit-map, ref-map byte for byte', 'git fast-import is a stated contract (Frrs/Import.lean: marks, aliases, branch table, implicit parent, tree algebra incl. file/directory replacement, annotated tags), validated against git 2.39.5 by differential runs, not proved'],
         assumptions=['ref renaming does not map two exported names onto one (refRenameCollides guard)', 'the update-ref batch of finalize() and old-name deletion are covered by the end-to-end runs'],
     ),
     'C06': dict(
-        fncorr=['lines'], runners=['stream'],
+        e2e_modes=['filter'],
+        fncorr=['lines'], runners=['stream', 'e2e_filter'],
         trusted_base=['modelled, not verified: the main loop of stream.rs with commit.rs/tag.rs and the tag-reset flush of finalize.rs (Frrs/Filter.lean, rule by rule after DESIGN.md Appendix B); tied to the code by running the real tool under --dry-run --fe_stream_override on generated streams and comparing status, fast-export.filtered, commit-map, ref-map byte for byte', 'git fast-import is a stated contract (Frrs/Import.lean: marks, aliases, branch table, implicit parent, tree algebra incl. file/directory replacement, annotated tags), validated against git 2.39.5 by differential runs, not proved', 'cat-file sizes for id-referenced blobs under --no-data are a parameter (shaOversize)'],
         assumptions=['RenameOk as in C01'],
     ),
     'C08': dict(
-        fncorr=['codec', 'lines'], runners=['stream'], stream_modes=['neutral'],
+        e2e_modes=['neutral'],
+        fncorr=['codec', 'lines'], runners=['stream', 'e2e_filter'], stream_modes=['neutral'],
         trusted_base=['modelled, not verified: the main loop of stream.rs with commit.rs/tag.rs and the tag-reset flush of finalize.rs (Frrs/Filter.lean, rule by rule after DESIGN.md Appendix B); tied to the code by running the real tool under --dry-run --fe_stream_override on generated streams and comparing status, fast-export.filtered, commit-map, ref-map byte for byte', 'git fast-import is a stated contract (Frrs/Import.lean: marks, aliases, branch table, implicit parent, tree algebra incl. file/directory replacement, annotated tags), validated against git 2.39.5 by differential runs, not proved', 'object ids are a function of object content (SHA-1), git fast-export | fast-import is lossless on the histories of the quantifier'],
         assumptions=['paths free of control bytes', 'no file<->directory swap inside one commit (class F12: git 2.39.5 itself is lossy there)'],
     ),
     'C09': dict(
-        fncorr=['commit'], runners=['stream'],
+        e2e_modes=['filter'],
+        fncorr=['commit'], runners=['stream', 'e2e_filter'],
         trusted_base=['modelled, not verified: the main loop of stream.rs with commit.rs/tag.rs and the tag-reset flush of finalize.rs (Frrs/Filter.lean, rule by rule after DESIGN.md Appendix B); tied to the code by running the real tool under --dry-run --fe_stream_override on generated streams and comparing status, fast-export.filtered, commit-map, ref-map byte for byte', 'git fast-import is a stated contract (Frrs/Import.lean: marks, aliases, branch table, implicit parent, tree algebra incl. file/directory replacement, annotated tags), validated against git 2.39.5 by differential runs, not proved', 'the importer marks file (mark -> id) is represented by a synthetic marks file in the dry-run correspondence; the real one is used in the end-to-end runs'],
         assumptions=[],
     ),
@@ -64,5 +72,21 @@ SPECS = {
         fncorr=[], runners=['stream'], stream_modes=['cuts', 'corr'],
         trusted_base=['modelled, not verified: the main loop of stream.rs with commit.rs/tag.rs and the tag-reset flush of finalize.rs (Frrs/Filter.lean, rule by rule after DESIGN.md Appendix B); tied to the code by running the real tool under --dry-run --fe_stream_override on generated streams and comparing status, fast-export.filtered, commit-map, ref-map byte for byte', 'git fast-import with `feature done` rejects a stream that ends without a complete done line and then updates no ref (contract validated against git 2.39.5)'],
         assumptions=['sensitive-mode fetch is excluded (it deliberately mirrors the remote before the rewrite)'],
+    ),
+    'C07': dict(
+        e2e_modes=['rules'],
+        fncorr=['replace', 'rules'], runners=['e2e_filter'],
+        trusted_base=['modelled, not verified: replace_all_bytes / MessageReplacer (Frrs/Replace.lean)',
+                      'git: `reflog expire --expire=now --all` + `gc --prune=now` delete every object not reachable from refs, HEAD and the index; packs and loose objects are read through cat-file --batch-all-objects (contract, observed end to end)',
+                      'that every blob and message the importer receives went through the replacement pass is the stream-level correspondence of C05/C04'],
+        assumptions=['Compat: no replacement of the rule file can re-create a literal (decidable; the statement\'s own hypothesis is provably insufficient, finding N7)',
+                     'regex rules are outside this property (literal rules only)'],
+    ),
+    'C14': dict(
+        e2e_modes=['filter'],
+        fncorr=[], runners=['e2e_filter'],
+        trusted_base=['the HEAD decision of finalize() is inline code: modelled by hand (Frrs/Finalize.lean headTarget) and validated end to end only',
+                      '`git reset --hard` makes index and work tree equal the tree of the commit HEAD resolves to (git contract)'],
+        assumptions=['non-bare repository whose HEAD was attached to an existing branch', 'ref renaming does not merge two exported names'],
     ),
 }
